@@ -268,8 +268,27 @@ Section Check.
   Definition iminimal (e : irec) (rest : list irec) : bool :=
     forallb (fun e' : irec => negb (o_ret (snd e') <? o_call (snd e))) rest.
 
-  Fixpoint lin_m (fuel : nat) (s : St) (pending : list irec) (vis : list (N * St)) (bud : N)
-    : option bool * list (N * St) * N :=
+  Definition mres := (option bool * list (N * St) * N)%type.
+  Fixpoint try_picks (rec : St -> list irec -> list (N * St) -> N -> mres) (s : St)
+           (ps : list (irec * list irec)) (vis : list (N * St)) (bud : N) : mres :=
+    match ps with
+    | [] => (Some false, vis, bud)
+    | (e, rest) :: ps' =>
+      if bud =? 0 then (None, vis, 0) else
+      let bud := N.pred bud in
+      if iminimal e rest then
+        let (s', r) := step s (o_op (snd e)) in
+        if res_eqb r (o_res (snd e)) then
+          match rec s' rest vis bud with
+          | (Some true, v, b) => (Some true, v, b)
+          | (Some false, v, b) => try_picks rec s ps' v b
+          | (None, v, b) => (None, v, b)
+          end
+        else try_picks rec s ps' vis bud
+      else try_picks rec s ps' vis bud
+    end.
+
+  Fixpoint lin_m (fuel : nat) (s : St) (pending : list irec) (vis : list (N * St)) (bud : N) : mres :=
     match pending with
     | [] => (Some true, vis, bud)
     | _ :: _ =>
@@ -278,28 +297,9 @@ Section Check.
       | S f =>
         let key := mask_of pending in
         if seen key s vis then (Some false, vis, bud) else
-        let '(r, vis', bud') :=
-          (fix try (ps : list (irec * list irec)) (vis : list (N * St)) (bud : N)
-             : option bool * list (N * St) * N :=
-             match ps with
-             | [] => (Some false, vis, bud)
-             | (e, rest) :: ps' =>
-               if bud =? 0 then (None, vis, 0) else
-               let bud := N.pred bud in
-               if iminimal e rest then
-                 let (s', r) := step s (o_op (snd e)) in
-                 if res_eqb r (o_res (snd e)) then
-                   match lin_m f s' rest vis bud with
-                   | (Some true, v, b) => (Some true, v, b)
-                   | (Some false, v, b) => try ps' v b
-                   | (None, v, b) => (None, v, b)
-                   end
-                 else try ps' vis bud
-               else try ps' vis bud
-             end) (picks pending) vis bud in
-        match r with
-        | Some false => (Some false, (key, s) :: vis', bud')
-        | _ => (r, vis', bud')
+        match try_picks (lin_m f) s (picks pending) vis bud with
+        | (Some false, vis', bud') => (Some false, (key, s) :: vis', bud')
+        | x => x
         end
       end
     end.
@@ -311,39 +311,49 @@ Section Check.
     apply negb_true_iff, N.ltb_ge in H. lia.
   Qed.
 
+  Definition sound_at (s : St) (p : list irec) : Prop :=
+    exists l s', Permutation l (map snd p) /\ legal fspec s l s' /\ rt_ordered l.
+
+  Lemma try_picks_sound rec
+        (Hrec : forall s p vis bud vis' bud', rec s p vis bud = (Some true, vis', bud') -> sound_at s p)
+        s : forall ps vis bud vis' bud',
+    try_picks rec s ps vis bud = (Some true, vis', bud') ->
+    exists e rest, In (e, rest) ps /\ iminimal e rest = true /\
+                   exists s1, step s (o_op (snd e)) = (s1, o_res (snd e)) /\ sound_at s1 rest.
+  Proof.
+    induction ps as [|[e rest] ps IHps]; intros vis bud vis' bud' H; simpl in H; [discriminate|].
+    destruct (bud =? 0); [discriminate|].
+    assert (Hnext : forall v b, try_picks rec s ps v b = (Some true, vis', bud') ->
+              exists e0 rest0, In (e0, rest0) ((e, rest) :: ps) /\ iminimal e0 rest0 = true /\
+                exists s1, step s (o_op (snd e0)) = (s1, o_res (snd e0)) /\ sound_at s1 rest0).
+    { intros v b Hn. destruct (IHps _ _ _ _ Hn) as [e1 [r1 [Hi Hx]]]. exists e1, r1. split; [right; exact Hi|exact Hx]. }
+    destruct (iminimal e rest) eqn:Emin; [|eapply Hnext; exact H].
+    destruct (step s (o_op (snd e))) as [s1 r1] eqn:Es.
+    destruct (res_eqb r1 (o_res (snd e))) eqn:Er; [|eapply Hnext; exact H].
+    destruct (rec s1 rest vis (N.pred bud)) as [[[[|]|] v1] b1] eqn:Erec.
+    - apply res_eqb_spec in Er. subst r1. exists e, rest. split; [left; reflexivity|]. split; [exact Emin|].
+      exists s1. split; [exact Es|]. eapply Hrec; exact Erec.
+    - eapply Hnext; exact H.
+    - discriminate.
+  Qed.
+
   Lemma lin_m_sound fuel : forall s pending vis bud vis' bud',
-    lin_m fuel s pending vis bud = (Some true, vis', bud') ->
-    exists l s', Permutation l (map snd pending) /\ legal fspec s l s' /\ rt_ordered l.
+    lin_m fuel s pending vis bud = (Some true, vis', bud') -> sound_at s pending.
   Proof.
     induction fuel as [|f IH]; intros s pending vis bud vis' bud' H.
     - destruct pending; [|discriminate]. exists [], s. repeat split; constructor.
     - destruct pending as [|e0 p0].
       { exists [], s. repeat split; constructor. }
       cbn [lin_m] in H. destruct (seen (mask_of (e0 :: p0)) s vis); [discriminate|].
-      match type of H with (let '(r, v, b) := ?T in _) = _ => destruct T as [[r v] b] eqn:ET end.
+      destruct (try_picks (lin_m f) s (picks (e0 :: p0)) vis bud) as [[r v] b] eqn:ET.
       assert (Hr : r = Some true) by (destruct r as [[|]|]; congruence). subst r. clear H.
-      assert (Hperm : forall e rest, In (e, rest) (picks (e0 :: p0)) ->
-                Permutation (snd e :: map snd rest) (map snd (e0 :: p0))).
-      { intros e rest Hin. apply picks_perm in Hin. change (snd e :: map snd rest) with (map snd (e :: rest)).
-        apply Permutation_map. exact Hin. }
-      revert vis bud ET Hperm. generalize (picks (e0 :: p0)) as ps.
-      induction ps as [|[e rest] ps IHps]; intros vis bud ET Hperm; [discriminate|].
-      destruct (bud =? 0); [discriminate|].
-      destruct (iminimal e rest) eqn:Emin; [|eapply IHps; [exact ET|intros; apply Hperm; right; assumption]].
-      destruct (step s (o_op (snd e))) as [s1 r1] eqn:Es.
-      destruct (res_eqb r1 (o_res (snd e))) eqn:Er;
-        [|eapply IHps; [exact ET|intros; apply Hperm; right; assumption]].
-      destruct (lin_m f s1 rest vis (N.pred bud)) as [[[[|]|] v1] b1] eqn:Erec.
-      + apply res_eqb_spec in Er. subst r1.
-        destruct (IH _ _ _ _ _ _ Erec) as [l [s' [Hp [Hl Ho]]]].
-        exists (snd e :: l), s'. repeat split.
-        * rewrite <- (Hperm e rest (or_introl eq_refl)). constructor. exact Hp.
-        * econstructor; [exact Es|exact Hl].
-        * constructor; [|exact Ho]. apply iminimal_spec in Emin.
-          rewrite Forall_forall in Emin. apply Forall_forall. intros x Hx. apply Emin.
-          eapply Permutation_in; [exact Hp|exact Hx].
-      + eapply IHps; [exact ET|intros; apply Hperm; right; assumption].
-      + discriminate.
+      destruct (try_picks_sound (lin_m f) IH s _ _ _ _ _ ET) as [e [rest [Hin [Emin [s1 [Es [l [s' [Hp [Hl Ho]]]]]]]]]].
+      exists (snd e :: l), s'. repeat split.
+      + apply picks_perm in Hin. rewrite <- Hin. simpl. constructor. exact Hp.
+      + econstructor; [exact Es|exact Hl].
+      + constructor; [|exact Ho]. apply iminimal_spec in Emin.
+        rewrite Forall_forall in Emin. apply Forall_forall. intros x Hx. apply Emin.
+        eapply Permutation_in; [exact Hp|exact Hx].
   Qed.
 
   Fixpoint index_from (i : N) (h : list orec) : list irec :=
